@@ -56,6 +56,7 @@ import (
 	"os"
 	"path/filepath"
 	"sort"
+	"strconv"
 	"strings"
 	"sync"
 	"sync/atomic"
@@ -112,6 +113,13 @@ type caseSpec struct {
 
 // histories on a common time line of id X, plus another id Y.  j = per-case jitter.
 func mkHist(name, idX, idY string, j int64) hist {
+	// "Q+n": the Q history with a small lead of n bytes
+	if strings.HasPrefix(name, "Q+") {
+		n, _ := strconv.ParseInt(name[2:], 10, 64)
+		h := mkHist("Q", idX, idY, j)
+		h.Name, h.LogRight = name, h.LogRight+n
+		return h
+	}
 	switch name {
 	case "P": // snapshot + short log
 		return hist{Name: name, ID: idX, RdbLeft: 1000 + j, RdbSize: 20000, LogLeft: 1000 + j, LogRight: 13000 + j}
@@ -252,6 +260,18 @@ func buildCases(r *harness.Run) []*caseSpec {
 			}
 			if v < r.N(1, 2) && (cb[0] == cb[1] || !r.Quick()) {
 				add(caseSpec{L: "R", F: "BA", BL: cb[0], BF: cb[1], Proc: "same", Scn: scPlain, Variant: v})
+			}
+		}
+		// A-. small leads: the follower holds 1 .. 4097 bytes more than the leader (around the 4 KiB
+		// chunk the leader sends).  Each case draws its parameters from its own stream (keyed by the
+		// case key), so adding these does not shift the existing mix.
+		for _, lead := range []int{1, 7, 100, 4095, 4096, 4097} {
+			f := fmt.Sprintf("Q+%d", lead)
+			for _, cb := range combos {
+				add(caseSpec{L: "Q", F: f, BL: cb[0], BF: cb[1], Proc: "same", Scn: scPlain, Variant: v})
+				if cb[1] == backendDisk {
+					add(caseSpec{L: "Q", F: f, BL: cb[0], BF: cb[1], Proc: "fresh", Scn: scPlain, Variant: v})
+				}
 			}
 		}
 		// A''. the 10 MiB gap threshold, crossed in both directions, follower ahead and behind
@@ -971,6 +991,20 @@ func runCase(r *harness.Run, c *caseSpec, dir string) {
 
 	if expectTakeover {
 		ev = cr.waitEvent(h, false)
+		if ev != "returned" && !c.LH.IDOnly {
+			// leadership was not offered: a live leader goes on appending; let what that does to the
+			// follower's cache (which holds more than the leader) show before it is judged
+			for _, b := range c.Bursts {
+				if err := cr.lf.append(b); err != nil {
+					harnessFail("leader live append: %v", err)
+					return
+				}
+				if e2 := cr.waitSteps(h, 400); e2 == "returned" {
+					ev = e2
+					break
+				}
+			}
+		}
 	} else if !h.ret {
 		wantCut := c.Scn == scCut || c.Scn == scCutRetry
 		midChecked := false
@@ -1147,6 +1181,24 @@ func runCase(r *harness.Run, c *caseSpec, dir string) {
 	}
 
 	// ---- a follower that holds more than the leader: leadership offered, cache untouched
+	if expectTakeover && c.BF == backendDisk {
+		// ... and still there when the directory is scanned again (process restart / next session)
+		cr.fch.Close()
+		cr.fch = newChannel(c.BF, fdir, "F-"+sk, c.LogSizeF, 0)
+		if _, err := cr.fch.StartPoint([]string{cr.pre.ID}); err != nil {
+			harnessFail("re-scan of the follower's directory: %v", err)
+		} else if again := stateOf(cr.fch); again != cr.pre {
+			cr.findings = append(cr.findings, finding{Sig: "ahead-overwritten", What: fmt.Sprintf(
+				"follower was ahead of the leader; after its directory is scanned again its cache is %v instead of %v", again, cr.pre),
+				Detail: map[string]any{"follower_after_session": final, "follower_after_rescan": again}})
+		} else {
+			var st checkStats
+			_, fs := checkFollower(cr.fch, nil, fdir, cr.wd, cr.rng, "after-rescan", true, &st)
+			cr.st.add(st)
+			cr.findings = append(cr.findings, fs...)
+			r.Count("ahead_followers_rescanned", 1)
+		}
+	}
 	if expectTakeover {
 		if !takeover {
 			cr.findings = append(cr.findings, finding{Sig: "ahead-no-takeover", What: fmt.Sprintf(
